@@ -112,59 +112,9 @@ def frame_guard(ctx):
         return
     an = ctx.an(b)
     g = ctx.graph(b)
-    low = high = None
-    OPS = {"Lt": lambda x, y: x < y, "Le": lambda x, y: x <= y, "Gt": lambda x, y: x > y, "Ge": lambda x, y: x >= y,
-           "Eq": lambda x, y: x == y, "Ne": lambda x, y: x != y}
-
-    def is_len(x):
-        return bool(find_all(x, lambda y: y[0] == "select_out")) and bool(calls_in(x, "read_varint")) and x[0] != "binop"
-    for blk in b.blocks:
-        if blk.cleanup or blk.term.kind != "switch" or b.is_noise(blk.term):
-            continue
-        e, ls = an.switch_info(blk.idx)
-        if e[0] != "binop" or e[1] not in OPS:
-            continue
-        a, c = flow.strip(e[2]), flow.strip(e[3])
-        MAX = 1000
-
-        def val(x, length):
-            if is_len(x):
-                return length
-            if x[0] == "const" and isinstance(x[2], int):
-                return x[2]
-            if self_field(x) == "max_packet_length":
-                return MAX
-            return None
-
-        def truth(length):
-            p, q = val(a, length), val(c, length)
-            if p is None or q is None:
-                return None
-            return OPS[e[1]](p, q)
-        if not (is_len(a) or is_len(c)):
-            continue
-        edges = lambda lab: [(blk.idx, tb) for tb, l in ls.items() if lab in l]  # noqa: E731
-        is_const_cmp = (a[0] == "const" or c[0] == "const")
-        is_max_cmp = self_field(a) == "max_packet_length" or self_field(c) == "max_packet_length"
-        if is_const_cmp and truth(1) is not None:
-            # a lower bound: lengths 1.. take one edge, lengths ..0 the other (semantic test on sample points)
-            t1 = truth(1)
-            if truth(0) == (not t1) and truth(-7) == (not t1) and truth(2) == t1 and truth(MAX) == t1:
-                lab = "true" if t1 else "false"
-                rej = "false" if t1 else "true"
-                low = (blk.idx, edges(lab), edges(rej))
-        if is_max_cmp and truth(MAX) is not None:
-            tm = truth(MAX)
-            if truth(MAX + 1) == (not tm) and truth(MAX - 1) == tm and truth(1) == tm:
-                lab = "true" if tm else "false"
-                rej = "false" if tm else "true"
-                high = (blk.idx, edges(lab), edges(rej))
-    ctx.check(low is not None, R, "C04/frame-guard/lower-bound", b.loc, reason="anchor-missing: no `length <= 0` rejection of the frame length", detail="guard: length <= 0 rejected")
-    ctx.check(high is not None, R, "C04/frame-guard/upper-bound", b.loc, reason="anchor-missing: no `length > self.max_packet_length` rejection of the frame length",
-              detail="guard: length > self.max_packet_length rejected")
-    if not (low and high):
-        return
-    cut = low[1] + high[1]
+    S, MAX = frame_samples(ctx, b)
+    BAD_LOW, GOOD, BAD_HIGH = (-7, 0), (1, 2, MAX - 1, MAX), (MAX + 1,)
+    ctx.floor(R, "comparisons of the frame length with constants / self.max_packet_length", len(S.cmp), 2, b.loc)
     # everything that consumes or computes with the length after the select!
     deps = []
     for bb, kind, name, info in awaits(ctx, b):
@@ -176,24 +126,77 @@ def frame_guard(ctx):
         if blk.term.kind == "assert" and not blk.cleanup and not b.is_noise(blk.term) and "tokio::select" not in " ".join(b.chain(blk.term)):
             deps.append((blk.idx, "assert:" + blk.term.j["msg"]))
     ctx.floor(R, "length-dependent operations after the guard", len(deps), 5, b.loc)
-    for bb, nm in deps:
-        ok1 = g.must_pass(bb, cut_edges=low[1])[0]
-        ok2 = g.must_pass(bb, cut_edges=high[1])[0]
-        ctx.check(ok1 and ok2, R, "C04/frame-guard/dominates/%s@%s" % (nm, site(b, bb).split(":")[-1]), site(b, bb),
+    # the select!'s own read_varint happens before the length is known: it is reachable for every sample
+    post = [(bb, nm) for bb, nm in deps if not all(S.reachable(v, bb) for v in BAD_LOW + BAD_HIGH) or nm != "read_varint"]
+    pre = [d for d in deps if d not in post]
+    low = all(not S.reachable(v, bb) for v in BAD_LOW for bb, _ in post) and all(S.reachable(1, bb) for bb, _ in post) and bool(post)
+    high = all(not S.reachable(v, bb) for v in BAD_HIGH for bb, _ in post) and all(S.reachable(MAX, bb) for bb, _ in post) and bool(post)
+    ctx.check(low, R, "C04/frame-guard/lower-bound", b.loc,
+              reason="anchor-missing: no `length <= 0` rejection of the frame length (evaluated for lengths -7, 0, 1: length-dependent operations reachable for %s)"
+                     % sorted(set(v for v in BAD_LOW for bb, _ in post if S.reachable(v, bb))),
+              detail="lengths <= 0 never reach a length-dependent operation; length 1 does (sample-point evaluation of the guard)")
+    ctx.check(high, R, "C04/frame-guard/upper-bound", b.loc,
+              reason="anchor-missing: no `length > self.max_packet_length` rejection of the frame length (evaluated for max, max+1: reachable for max+1: %s, for max: %s)"
+                     % (any(S.reachable(MAX + 1, bb) for bb, _ in post), all(S.reachable(MAX, bb) for bb, _ in post)),
+              detail="length max+1 never reaches a length-dependent operation; length max does")
+    ctx.check(len(pre) <= 1, R, "C04/frame-guard/single-unguarded-read", b.loc,
+              reason="%d reads happen before the frame length is checked: %s" % (len(pre), pre), detail="only the length prefix itself is read before the guard")
+    ordinal = {}
+    for bb, nm in post:
+        ordinal[nm] = ordinal.get(nm, 0) + 1
+        ok1 = not any(S.reachable(v, bb) for v in BAD_LOW)
+        ok2 = not any(S.reachable(v, bb) for v in BAD_HIGH)
+        ctx.check(ok1 and ok2, R, "C04/frame-guard/dominates/%s#%d" % (nm, ordinal[nm]), site(b, bb),
                   reason="%s is reachable with a frame length that is %s" % (nm, "non-positive" if not ok1 else "above self.max_packet_length"),
                   detail="%s dominated by 1 <= length <= max" % nm)
-    # rejecting edges: Err(IllegalPacketLength), no read
-    starts = []
-    for (_, tb) in low[2] + high[2]:
-        starts += g.nodes_of_bb(tb)
-    reach = set(g.bb(n) for n in g.reachable(starts))
-    reads = [bb for bb, kind, name, info in awaits(ctx, b) if bb in reach]
+    # what only an illegal length reaches: Err(IllegalPacketLength), no read
+    good = set()
+    for v in GOOD:
+        good |= S.reach[v]
     from .. import events
     ev = events.extract(ctx, b)
-    errs = [e for bb, es in ev.items() if bb in reach for _, e, _ in es]
-    ctx.check(not reads and "ret:err:IllegalPacketLength" in errs and "ret:ok" not in errs, R, "C04/frame-guard/reject-before-body", site(b, low[0]),
-              reason="an illegal frame length does not end in Err(IllegalPacketLength) before anything else is read (awaits reachable: %d, results: %s)" % (len(reads), sorted(set(errs))),
-              detail="illegal length: Err(IllegalPacketLength), nothing read")
+    for v in BAD_LOW + BAD_HIGH:
+        only = S.reach[v] - good
+        reads = [bb for bb, kind, name, info in awaits(ctx, b) if bb in only]
+        errs = [e for bb, es in ev.items() if bb in only for _, e, _ in es]
+        ctx.check(not reads and "ret:err:IllegalPacketLength" in errs and "ret:ok" not in errs, R, "C04/frame-guard/reject-before-body/%s" % ("max+1" if v > MAX else v),
+                  site(b, S.cmp_blocks()[0]) if S.cmp else b.loc,
+                  reason="an illegal frame length (%s) does not end in Err(IllegalPacketLength) before anything else is read (awaits reachable: %d, results: %s)"
+                         % ("max+1" if v > MAX else v, len(reads), sorted(set(errs))),
+                  detail="illegal length: Err(IllegalPacketLength), nothing read")
+
+
+FRAME_MAX = 1000
+
+
+def frame_atom(x, L):
+    """leaves of expressions over the frame length: the length itself (output of the select!'s read_varint arm)
+    and the configured bound"""
+    if x[0] not in ("binop", "cast", "call", "const", "constitem") and find_all(x, lambda y: y[0] == "select_out") and calls_in(x, "read_varint") \
+            and not find_all(x, lambda y: y[0] in ("binop", "cast", "unop")):
+        return L
+    if self_field(x) == "max_packet_length":
+        return FRAME_MAX
+    return None
+
+
+def frame_value(e, L):
+    """value of an expression over the frame length for length L (None if it is not such an expression)"""
+    from ..sample import evaluate
+    return evaluate(e, lambda x: frame_atom(x, L))
+
+
+def frame_samples(ctx, b):
+    """sample-point refinement of receive_packet over the frame length (see pv/sample.py)"""
+    from ..sample import Samples
+    MAX = FRAME_MAX
+    atom = frame_atom
+    key = "_frame_samples_" + b.key
+    S = getattr(ctx, key, None)
+    if S is None:
+        S = Samples(ctx, b, atom, [-7, 0, 1, 2, MAX - 1, MAX, MAX + 1])
+        setattr(ctx, key, S)
+    return S, MAX
 
 
 # ---- C04/bounded-alloc --------------------------------------------------------------------------
@@ -262,17 +265,12 @@ def guard_discharges(ctx):
     # cookie::verify slicing dominated by len >= 32 (checked in detail by C02/verify-shape)
     vb = ctx.prog.lib_bodies.get("passage_protocol::cookie::verify")
     if vb is not None:
-        an = ctx.an(vb)
-        g = ctx.graph(vb)
-        pe = []
-        for blk in vb.blocks:
-            if blk.cleanup or blk.term.kind != "switch":
-                continue
-            e, ls = an.switch_info(blk.idx)
-            if e[0] == "binop" and e[1] == "Lt" and flow.strip(e[3]) == ("const", "usize", 32) and calls_in(e, "len"):
-                pe = [(blk.idx, tb) for tb, l in ls.items() if "false" in l]
-        ok = bool(pe) and all(g.must_pass(bb, cut_edges=pe)[0] for bb, t in calls(vb, "Index::index"))
-        out[("passage_protocol::cookie::verify", "call", "index::index")] = (ok, "signed[..32] / signed[32..] dominated by `signed.len() >= 32`")
+        from .cookie_common import slicing_sites, verify_samples
+        slices = slicing_sites(ctx, vb)
+        S = verify_samples(ctx, vb, [32] + [n for _, _, n in slices])
+        ok = bool(slices) and all(need is not None and not any(S.reachable(v, bb) for v in S.reach if v < need) for bb, what, need in slices)
+        out[("passage_protocol::cookie::verify", "call", "index::index")] = (ok, "every slice of `signed` is unreachable for inputs shorter than it needs (sample-point evaluation of the length guard)")
+        out[("passage_protocol::cookie::verify", "call", "slice::split_at")] = (ok, "split_at(n) unreachable for inputs shorter than n")
     # VarInt readers: shift 7*i with i < groups, 7*(groups-1) < width; buf[0] on a [u8; 1]
     for fn, width in (("read_varint", 32), ("read_varlong", 64)):
         k = "passage_packets::reader::{impl#0}::%s::{closure#0}" % fn
